@@ -106,12 +106,24 @@ type packageFiles struct {
 
 // enter determines the source file of a parsed file. A //line directive inside a source file
 // of the package (a file produced from a template) does not rename it. The go command may
-// hand out preprocessed copies instead of the source files (cgo, -cover); those start with
-// a //line directive that names the source file.
+// hand out preprocessed copies instead of the source files (cgo, -cover); in those the first
+// //line directive names the source file.
 func (f *packageFiles) enter(file *ast.File) {
 	f.current = f.PositionFor(file.Package, false).Filename
-	if _, ok := f.sources[f.current]; !ok {
-		f.current = f.Position(file.Package).Filename
+	if _, ok := f.sources[f.current]; ok {
+		return
+	}
+	// a preprocessed copy: the first //line directive in it names the source file (a
+	// directive of the source file itself may follow, even before the package clause)
+	physical := f.current
+	f.current = f.Position(file.Package).Filename
+	if tf := f.File(file.Package); tf != nil {
+		for line := 1; line <= tf.LineCount() && line <= 100; line++ {
+			if name := f.Position(tf.LineStart(line)).Filename; name != physical {
+				f.current = name
+				return
+			}
+		}
 	}
 }
 
